@@ -1,14 +1,17 @@
 """C15 - parsing untrusted frames never fails (pox.lib.packet, PacketIn.parsed).
 
-E-enum over mutants of the corpus of valid frames in mc/refs/pktcorpus.py (73 frames, one or more per
-parser path, assembled from RFC byte layouts without POX).  Enumerated families, per corpus frame f:
+E-enum over mutants of the corpus of valid frames in mc/refs/pktcorpus.py (one or more per parser path,
+assembled from RFC byte layouts without POX; it includes DHCP messages with RFC 3396 long options - one option
+code in several TLVs adding up to more than 255 bytes - and IGMPv3 reports with two and three group records),
+plus the frames of frames() below that are valid in a dialect POX itself speaks.  Enumerated families, per frame f:
 
   valid   f itself
   trunc   every truncation f[:L], 0 <= L < len(f)
   byte    every byte position p x every replacement value of a small boundary set
           {0x00, 0xff, b^0x01, b^0x80, b+1} (quick and thorough), plus ALL 255 alternative values for the
           first 64 bytes (thorough)
-  pair    (thorough) every truncation length L x every corrupted byte position p < L x {0x00, 0xff, b^0x01}
+  pair    (thorough, frames of <= 400 bytes) every truncation length L x every corrupted byte position p < L x
+          {0x00, 0xff, b^0x01}
           - a superset of "truncation x one corrupted length/type byte" that needs no table of which bytes
           are length/type fields
   fix-*   the same four families for the eth/ipv6/icmpv6 frames, from the IPv6 addresses on, with the IPv6
@@ -631,17 +634,17 @@ def run (cfg):
   C = frames()
   rep = Report(PID, "exploration")
   fams = families(cfg)
-  rep.rule = ("for each of the %d valid corpus frames (%d bytes in total; mc/refs/pktcorpus.py, one or more per parser "
-              "path): the frame itself; every truncation length 0..len-1; every byte position x replacement values "
+  rep.rule = ("for each of the %d valid frames (%d bytes in total; mc/refs/pktcorpus.py, one or more per parser "
+              "path, plus IGMPv3 reports in POX's host-byte-order dialect): the frame itself; every truncation length 0..len-1; every byte position x replacement values "
               "{0x00,0xff,b^0x01,b^0x80,b+1}%s; for the %d eth/ipv6/icmpv6 frames the same families once more from the "
               "IPv6 addresses on, with IPv6 payload length and ICMPv6 checksum repaired (the ICMPv6 parser drops bodies "
               "with a wrong checksum). Each mutant is parsed by ethernet(raw=) and via ofp_packet_in pack/unpack -> "
-              "PacketIn.parsed, walked along .next, printed (str of every header, dump) and re-packed, every phase "
+              "PacketIn.parsed, walked along .next, printed (str of every header, dump), re-packed and measured (len of every header), every phase "
               "under a budget of %d %s. distinct = distinct (frame, header chain with parsed flags, raising sites, "
               "pack()==input) digests; cases = distinct (family, frame, length, position, value) descriptors"
               % (len(C), sum(len(f) for f in C.values()),
-                 "" if cfg.quick else "; all 255 alternative values for each of the first %d bytes; every truncation "
-                 "length x every corrupted position below it x {0x00,0xff,b^0x01}" % FIRST,
+                 "" if cfg.quick else "; all 255 alternative values for each of the first %d bytes; for frames of <= %d "
+                 "bytes every truncation length x every corrupted position below it x {0x00,0xff,b^0x01}" % (FIRST, PAIR_MAX_LEN),
                  sum(1 for f in C.values() if is_icmp6(f)),
                  LINE_BUDGET if GUARD == "line" else JUMP_BUDGET,
                  "traced lines of pox/lib/packet" if GUARD == "line" else "loop iterations (backward jumps) inside the POX tree"))
